@@ -77,6 +77,7 @@ func main() {
 	exhaustive := flag.Bool("exhaustive", false, "")
 	limit := flag.Int("limit", 20000, "max schedules in exhaustive mode")
 	sample := flag.Int("sample", 2, "number of passing runs to print with their trace")
+	traces := flag.Int("traces", 0, "number of passing runs whose full trace is exported for model conformance (K2)")
 	flag.Parse()
 	sc, ok := scenarios[*name]
 	if !ok {
@@ -109,6 +110,9 @@ func main() {
 			*sample--
 			res2 := res
 			enc.Encode(map[string]interface{}{"sample": true, "config": res2.Config, "choices": res2.Choices, "trace": res2.Trace})
+		} else if *traces > 0 && total%3 == 1 {
+			*traces--
+			enc.Encode(map[string]interface{}{"trace_export": true, "config": res.Config, "trace": res.Trace})
 		}
 	}
 	exhaustedCfgs := 0
